@@ -90,7 +90,7 @@ pub struct Freed {
     pub was_live: bool,
 }
 
-const PEND: usize = 1 << 14;
+const PEND: usize = 1 << 11;
 thread_local! {
     static LAST: Cell<(usize, usize, usize)> = const { Cell::new((0, 0, 0)) };
     static PENDING: UnsafeCell<[Freed; PEND]> = const { UnsafeCell::new([Freed { blk: 0, size: 0, align: 0, was_live: false }; PEND]) };
